@@ -1349,7 +1349,7 @@ static void e_sequence(const etree *t0, int origin, const int *ops, int nops) {
 	vbuf enc;
 	unsigned char *heap = NULL;
 	char what[200], nm[24];
-	int i, refused = 0, k = 0;
+	int i, refused = 0, k = 0, only_removed = 1;
 	rnode *r = e_ref(&t);
 	vb_init(&enc);
 	rt_layout(r);
@@ -1372,6 +1372,16 @@ static void e_sequence(const etree *t0, int origin, const int *ops, int nops) {
 		rc = e_apply(pe, &t, ops[i], (unsigned)(40 + 7 * i + ops[i]), origin == 2, what);
 		if (rc != 0) break;
 		e_check(pe, &t, what);
+		/* a parsed element from which children were only removed still reports its payload length (the library keeps the
+		 * field up to date on removal; appended / replaced children that were never serialized have no header length yet) */
+		if (ops[i] >= 3) only_removed = 0;
+		if (origin == 0 && only_removed) {
+			size_t pl = 0;
+			rnode *rr = e_ref(&t);
+			rt_layout(rr);
+			pl = rr->content;
+			if (pe->ftlv.dat_len != pl) fail1("elem-edit-reported-length", "%s: the element reports a payload of %zu bytes, its children encode to %zu", what, pe->ftlv.dat_len, pl);
+		}
 	}
 	/* the edited element detaches (re-encodes itself into an own buffer) to the same bytes */
 	if (i == nops) {
